@@ -112,6 +112,49 @@ PROPS = {
         'explanation': 'The reader driver lemma is stated for an ARBITRARY transmitted addition count k (read from the input) against the local count m: additions j < min(k, m) report bit j of the '
                        'transmitted bitmap, additions j >= k are absent, the cursor moves past all k bitmap bits; without the extension bit every addition is absent. Unbounded in counts and shapes.',
     },
+    'C01': {
+        'verus': [U_SCOPE, U_PER, U_BITS_DEP, U_LEMMAS],
+        'search_groups': ['zoo', 'seq', 'per'],
+        'bounded_search': [
+            ('zoo', 'BOUNDED in programs (6 generated types: extensible SEQUENCE with OPTIONAL last root component, OPTIONAL/DEFAULT/extensible INTEGER mix, extensible ENUMERATED, extensible CHOICE, constrained SEQUENCE OF, nesting) '
+                    'compiled by the real proc macro of the current tree; per run a few thousand value batches: each value alone and all of them back-to-back in one writer, bit-exact against hand-composed X.691 reference encodings, decoded back, remaining bits == 0'),
+            ('seq', 'all SEQUENCE shapes with n <= 4 components x kinds x marker position x presence patterns through the real Writer/Reader API; cross-version pairs <= 5 components'),
+        ],
+        'assumptions': [
+            'PROVED (Verus, unbounded): bit layer exact (C11); every PER primitive writer == X.691 spec function and every primitive reader == functional decoder, tied by spec-level round-trip lemmas dec(enc(v) ++ tail) == (v, len) '
+            'for constrained / semi-constrained / normally-small / unconstrained whole numbers and the length determinant (unit lemmas), all stated relative to an ARBITRARY prefix and tail, which is what makes back-to-back composition sound; '
+            'the presence protocol of SEQUENCE/SET writer and reader for any shape (C03/C05 drivers); open-type wrap == general length + padded content, reader ends exactly at the announced end',
+            'NOT PROVED, bounded stand-in only: the 18 + 19 methods of `impl Writer for UperWriter` / `impl Reader for UperReader` that pair a primitive with the protocol step (closure-generic trait methods), '
+            'the descriptor glue and the per-schema code emitted by walker.rs. Their composition is exercised on the zoo and the shape enumeration, never counted as discharged',
+            'value round trip of fragmented OCTET/BIT STRING readers: safety + consumption proved, value equality via regression probes and search only',
+            'known findings KF-C01-seqof-16k, KF-C01-string-16k, KF-C01-open-type-16k: sizes >= 16K elements (which the property explicitly includes) do not round trip for SEQUENCE OF, restricted strings and large extension additions',
+        ],
+        'trusted_base': COMMON_TRUSTED + PER_TRUSTED,
+        'not_under_contract': ['impl Writer for UperWriter (18 methods)', 'impl Reader for UperReader (19 methods)', 'descriptor/*.rs', 'generated write_seq / read_seq / choice content (walker.rs)'],
+        'explanation': 'Layered decision. Layers 1-2 (bits, PER primitives, presence protocol, open types) are discharged by Verus for all inputs with contracts that are relative to an arbitrary '
+                       'prefix/tail; layer 3 (trait impl + generated glue) is outside the contracts and is covered by labelled bounded stand-ins on real macro output. The check therefore decides the property '
+                       'for the primitives and the protocol and only explores it for whole generated types.',
+    },
+    'C02': {
+        'verus': [U_PER, U_SCOPE, U_BITS_DEP, U_LEMMAS],
+        'kani_thorough': [('per_cwn', 900, True), ('per_nnbi_constrained', 900, True), ('per_semi', 900, True), ('per_nsnnwn', 900, True),
+                          ('per_uwn', 900, True), ('per_2c', 900, True), ('per_length_determinant', 1200, True), ('per_index', 900, True)],
+        'search_groups': ['zoo', 'per', 'seq'],
+        'bounded_search': [
+            ('zoo', 'BOUNDED in programs: 6 generated types through the real proc macro, bit-exact against hand-composed X.691 reference encodings (see C01)'),
+            ('seq', 'all SEQUENCE shapes n <= 4 against the X.691 reference preamble / addition header / open types'),
+        ],
+        'assumptions': PER_ASSUMPTIONS + [
+            'PROVED (Verus, unbounded, inside the profile of DESIGN.md section 4): written bits == x691_* spec function for every PackedWrite method; the SEQUENCE preamble, extension bit, addition count (normally small number), '
+            'addition bitmap and open-type wrapping produced by the real Scope / with_buffer code equal the X.691 19 layout for any shape',
+            'the spec functions in contracts/prelude/x691.rs are a transcription of X.691 (08/2015) by hand: they ARE the oracle and are trusted; a second, executable transcription (replay/src/oracle.rs) is compared with the real code on every run',
+            'NOT PROVED, bounded stand-in only: type-level rules in `impl Writer/Reader for UperWriter/UperReader` (which primitive is called with which constants) and the constants emitted by walker.rs (MIN/MAX/EXTENSIBLE/STD_OPTIONAL_FIELDS/...)',
+        ],
+        'trusted_base': COMMON_TRUSTED + PER_TRUSTED + KANI_TRUSTED,
+        'not_under_contract': ['impl Writer for UperWriter (18 methods)', 'impl Reader for UperReader (19 methods)', 'constraint constants emitted by walker.rs'],
+        'explanation': 'Bit-exactness against X.691 is a Verus post-condition of every primitive writer and of the sequence / open-type machinery (unbounded); Kani re-checks the fixed-width primitives on the compiled crate against an '
+                       'executable oracle. Whole generated types are compared with reference encodings on a bounded zoo (labelled stand-in).',
+    },
     'C04': {
         'verus': [U_BITS, U_PER, U_SCOPE],
         'kani_quick': [('der_readers_total', 300, True), ('proto_readers_total', 300, True)],
@@ -203,6 +246,10 @@ PROPS = {
     'C17': {
         'kani_quick': [('proto_varint_roundtrip', 300, True), ('proto_sint64_roundtrip', 300, True), ('proto_sint32_roundtrip', 300, True),
                        ('proto_uint32_bool_roundtrip', 300, True), ('proto_tag_roundtrip', 300, True), ('proto_sfixed32_roundtrip', 300, True)],
+        'search_groups': ['proto'],
+        'bounded_search': [('proto', 'BOUNDED stand-in for ProtobufWriter / ProtobufReader (Writer/Reader impls, tag_counter discipline; Vec/String state machine outside both verifiers): 8 generated types compiled by the real proc macro '
+                                     '(every integer width/sign class around the i32/u32/i64 thresholds, OPTIONAL members, embedded SEQUENCE incl. empty ones followed by further fields, SEQUENCE OF messages / numbers, CHOICE in CHOICE, '
+                                     'ENUMERATED, OCTET STRING), 10500 boundary-heavy values: both writer back ends produce identical bytes and the bytes read back equal')],
         'assumptions': ['only the protobuf primitives (ProtoRead/ProtoWrite) are decided; the tag_counter discipline of ProtobufReader/Writer over generated types is not under contract'],
         'trusted_base': KANI_TRUSTED,
         'not_under_contract': ['ProtobufWriter / ProtobufReader (Writer/Reader impls, State.tag_counter)', 'SliceOrVec back ends', 'BitVec trailing-length representation'],
@@ -210,6 +257,10 @@ PROPS = {
     },
     'C16': {
         'kani_quick': [('tag_order', 120, True), ('rusttype_universal_tags', 120, True)],
+        'search_groups': ['setorder'],
+        'bounded_search': [('setorder', 'BOUNDED stand-in for sort_fields_canonically / assign_implicit_tags / TagResolver (Kani exhausts memory on Vec<Field>; String/iterator code): 6 SET definitions compiled by the real proc macro of the '
+                                        'current tree (explicit tags of all four classes, untagged builtin types incl. SEQUENCE OF / SET OF, automatic tagging, extension additions after the root, untagged references to a tagged type and to an '
+                                        'extensible CHOICE), 256 values each: the SET encodes exactly like the SEQUENCE whose components are written in the canonical order worked out by hand (wire order and presence-bit order), and decodes back')],
         'assumptions': ['sort_fields_canonically sorts by (extension?, Tag) with the compiled derive(Ord) verified here; the sort call itself and assign_implicit_tags are not discharged (Kani exhausts memory on Vec<Field>)',
                         'TagResolver through references/imports and the text emission of read_seq/write_seq are not under contract'],
         'trusted_base': KANI_TRUSTED,
